@@ -308,6 +308,19 @@ func c06Gen(r *rand.Rand, emit vutil.Emit) {
 			dom := u.domain(r)
 			tbl[k] = [2]string{dom, u.answer(r, dom, host)}
 		}
+		if r.IntN(100) < 70 && host != "" {
+			// make sure something covers the queried name (exactly or by a
+			// wildcard over one of its suffixes)
+			k := r.IntN(len(tbl))
+			dom := strings.ToLower(host)
+			if i := strings.IndexByte(dom, '.'); i >= 0 && r.IntN(100) < u.pWild {
+				dom = "*" + dom[i:]
+				if j := strings.IndexByte(dom[2:], '.'); j >= 0 && r.IntN(3) == 0 {
+					dom = "*" + dom[2+j:]
+				}
+			}
+			tbl[k] = [2]string{dom, u.answer(r, dom, host)}
+		}
 		qt := c06Qtype(r)
 		c06Emit(emit, tbl, host, qt)
 		prev, prevHost, prevQt, prevU = tbl, host, qt, u
